@@ -60,7 +60,8 @@ def _case(draw, max_t):
       shapes.append([draw(st.integers(5, 8)), draw(st.integers(2, 6))])
     if fam == "ds-fd":
       o.update(compression_rank=draw(st.sampled_from([1, 2])), frequent_directions=True, reuse_preconditioner=True,
-               average_grad=draw(st.booleans()))
+               average_grad=draw(st.booleans()), generate_fd_metrics=draw(st.booleans()),
+               skip_preconditioning_rank_lt=draw(st.sampled_from([1, 2])))
       o["statistics_compute_steps"] = o["preconditioning_compute_steps"]
       o["block_size"] = 128
       shapes.append([draw(st.integers(5, 8)), draw(st.integers(2, 6))])
@@ -166,7 +167,11 @@ def check(case):
     blob = serialization.to_bytes(states[k])
     initk, updk, _ = make(case)          # freshly constructed optimizer, fresh closures
     template = initk(p)
-    restored = serialization.from_bytes(template, blob)
+    try:
+      restored = serialization.from_bytes(template, blob)
+    except Exception as e:  # pylint: disable=broad-except
+      require(False, "restore-into-fresh-template",
+              f"{case['fam']} k={k}: from_bytes into init() of a fresh optimizer fails: {type(e).__name__}: {str(e)[:200]}")
     require(jax.tree.structure(restored) == jax.tree.structure(template), "restored-tree-matches-template",
             f"{case['fam']} k={k}: restored state has a different tree structure from init()'s")
     rb = _bytes_of(restored)
